@@ -133,7 +133,7 @@ def run(ctx):
         return
     cfgs = QUICK_CFG if ctx.quick else ALL_CFG
     lines, meta, tlcruns = contract.build_runs(ctx, n_tlc=40 if ctx.quick else 300, n_big=1 if ctx.quick else 5, configs=cfgs,
-                                               corpus=1 if ctx.quick else 3, extra_corpus=STATQ,
+                                               corpus=1 if ctx.quick else 3, extra_corpus=STATQ, corpus_tlc_db=True,
                                                gens=None if ctx.quick else [(2, 2, ctx.seed), (3, 2, ctx.seed + 1000), (4, 1, ctx.seed + 2000)])
     # databases for the aggregate-from-statistics cases: the larger random ones and a TLC-generated one
     dbs = []
